@@ -1589,6 +1589,13 @@ fn parse_expr_unchecked(
                     if member.try_trivial().is_none() {
                         let mut path = member.clone();
                         path.identifiers.pop();
+                        // A name qualified with only the global scope does not name a type that could own the member
+                        if path.identifiers.is_empty() {
+                            return Err(TyperError::IdentifierIsNotAMember(
+                                composite_ty,
+                                member.clone(),
+                            ));
+                        }
                         match context.find_identifier(&path) {
                             Ok(VariableExpression::Type(ty)) => {
                                 let ty_unmod = context.module.type_registry.remove_modifier(ty);
